@@ -140,6 +140,7 @@ pub fn cmd_e1(args: &Args) -> i32 {
     let mut runs_with_variants = 0u64;
     let mut input_changes = 0u64;
     let mut concurrent_ops = 0u64;
+    let mut cpus_hist: std::collections::BTreeMap<usize, u64> = std::collections::BTreeMap::new();
     let mut faults_planned = 0u64;
     let mut faults_fired = 0u64;
     let mut bb_ops = 0u64;
@@ -188,6 +189,7 @@ pub fn cmd_e1(args: &Args) -> i32 {
             }
         }
         concurrent_ops += plan.history.iter().filter(|h| h.with.is_some()).count() as u64;
+        *cpus_hist.entry(plan.cpus).or_insert(0) += 1;
         bb_ops += plan.history.iter().filter(|h| h.bb).count() as u64;
         for (h, (o, _)) in plan.history.iter().zip(r.outcomes.iter()) {
             if crate::c09::fault_of(&plan, h).is_some() {
@@ -306,6 +308,8 @@ pub fn cmd_e1(args: &Args) -> i32 {
         .set("runs_not_simulated_large_input_whose_sequential_build_panics", J::u(crate::c09::SKIPPED_LARGE_SEQ_PANIC.load(std::sync::atomic::Ordering::Relaxed)))
         .set("variant_kinds", J::Obj(variant_kinds.into_iter().map(|(k, v)| (k, J::u(v))).collect()))
         .set("simulated_clock_reads", J::u(sim_rayon::clock::reads()))
+        .set("simulated_affinity_reads", J::u(sim_rayon::sys::affinity_reads()))
+        .set("simulated_cpus", J::Obj(cpus_hist.into_iter().map(|(k, v)| (if k == 0 { "real".to_string() } else { format!("{:03}", k) }, J::u(v))).collect()))
         .set("wall_s", J::Num(wall))
         .set(
             "seconds_in",
